@@ -209,10 +209,24 @@ def check_long_strings(r, cfg):
     plants = ['AAAAAAA', 'GGGG', 'GC', 'GGC', 'TT', 'ACG', 'CGT', 'AGCT', 'CCCCCGGGGG', 'N']
     bgs = [''.join(p) for n in (1, 2, 3) for p in itertools.product('ACGT', repeat=n)]
     r.states += 1
+    jobs = []
     for bg in bgs[::1 if k <= 6 else 3]:
         base = (bg * 60)[:50]
         for pl in plants:
             for off in range(0, 50 - len(pl), 1 if len(bg) == 1 else 3):
+                jobs.append((base, pl, off))
+    # the same construction at lengths around k+256, 600 and 1100: a plant in the first windows, around
+    # the middle and in the last windows (a deviation at one place of an otherwise periodic strand)
+    for L in (k + 255, k + 256, k + 257, 600, 1100):
+        for bg in ('A', 'C', 'AC', 'GT', 'AG', 'ACGT', 'AACCGGTT', 'ACT', 'GCA')[::1 if k <= 6 else 2]:
+            base = (bg * (L // len(bg) + 1))[:L]
+            for pl in plants + ['C', 'A', 'T' * k, 'G' * k]:
+                for off in sorted({0, 1, 2, k - 1, k, L // 2, L - len(pl) - k, L - len(pl) - 1, L - len(pl)}):
+                    if 0 <= off <= L - len(pl):
+                        jobs.append((base, pl, off))
+    if True:
+        if True:
+            for base, pl, off in jobs:
                 s = base[:off] + pl + base[off + len(pl):]
                 exp = O.seq_ok_c(c, s)
                 st, got, _ = brun(f.valid, s, only_last=False)
@@ -371,7 +385,7 @@ def run(ctx):
     huge = [(k, lo, hi) for k in (100, 127, 128, 129, 200, 256) for lo, hi in (('0.4', '0.7'), ('0.5', '0.5'), ('0', '1'), ('0.6', '1'), ('0.64', '0.66'), ('0', '0.5'))]
     ctx.pmap(_w_huge, core.chunks_of(huge, 3))
     ctx.pmap(_w_ctor, [0], nproc=1)
-    ctx.bounds = {'strings_up_to': n, 'configurations': len(cfgs), 'k': [1, 5], 'wide_window_gc_grid': '%d (k, lo, hi) with k up to %d and 28 decimals incl. 0.29, 0.57, 0.58, 0.335, on all {A,C}-strings up to length k+2' % (len(wide), 10 if ctx.quick else 12), 'long_strings': '%d configurations at k=4,6,8,10 on 50-nt periodic strings with a run/motif planted at every offset' % len(longs)}
+    ctx.bounds = {'strings_up_to': n, 'configurations': len(cfgs), 'k': [1, 5], 'wide_window_gc_grid': '%d (k, lo, hi) with k up to %d and 28 decimals incl. 0.29, 0.57, 0.58, 0.335, on all {A,C}-strings up to length k+2' % (len(wide), 10 if ctx.quick else 12), 'long_strings': '%d configurations at k=4,6,8,10 on 50-nt periodic strings with a run/motif planted at every offset, and on strings of k+255..k+257, 600 and 1100 nt with the plant in the first, middle and last windows' % len(longs)}
     ctx.rule = ('one case = (configuration, string): whole-sequence verdict against an exact-rational reference predicate, '
                 'last-window verdict against the verdict of the final window, conjunction over windows (window-decidable '
                 'configurations), reverse-complement symmetry, foreign characters; states = configurations; non-trivial = '
